@@ -321,6 +321,8 @@ func inMemoryReader(v ssa.Value) bool {
 }
 
 func runC10(c *Ctx) {
+	// clause shared with C17: per-service options (the buffer limit among them) start from a fresh copy of the defaults
+	defer c.ImportRules("C17", "C17.4")
 	p := c.P
 	lc := newLimCtx(p)
 	reach := p.RequestTimeReach()
